@@ -28,18 +28,18 @@ ASSUMPTIONS = ['inherent alphabets of the string types are respected by the gene
 REPORT = ['modules', 'evaluations', 'accept_probes', 'reject_probes_encode', 'reject_probes_decode', 'silently_on_wire',
           'bound:reference', 'bound:literal', 'via_typeref', 'out_of_root_accepted', 'carved_out']
 FLOORS = {'quick': {'accept_probes': 10000, 'reject_probes_encode': 5000, 'reject_probes_decode': 1500},
-          'thorough': {'accept_probes': 100000}}
+          'thorough': {'accept_probes': 40000, 'reject_probes_encode': 20000, 'reject_probes_decode': 6000}}
 TIMEOUT = {'quick': 1800, 'thorough': 14000}
 
 
 def shards(tier):
-    return 32 if tier == 'quick' else 128
+    return 32 if tier == 'quick' else 64
 
 
 def params(tier):
     if tier == 'quick':
         return {'modules': 6, 'values': 8, 'perturb': 4}
-    return {'modules': 24, 'values': 14, 'perturb': 6}
+    return {'modules': 18, 'values': 12, 'perturb': 6}
 
 
 def profile(tier):
